@@ -134,6 +134,8 @@ func genMsgAlg(r *rand.Rand, n int) []string {
 	return out
 }
 
+var ivLenSeq int
+
 // C06: IV / Partial IV / Base IV presences and lengths
 func genMsgNonce(r *rand.Rand, n int) []string {
 	var out []string
@@ -168,7 +170,8 @@ func genMsgNonce(r *rand.Rand, n int) []string {
 		switch r.Intn(8) {
 		case 0:
 		case 1, 2: // caller IV of length around the nonce size
-			u = append(u, "int:5", "b:"+hx(randBytes(r, []int{ns, ns, ns, ns - 1, ns + 1, 1, 0, 8, 24, 7, 12, 13}[r.Intn(12)])))
+			ivLenSeq++ // (lengths taken in turn: the nonce sizes of the sibling constructions are reached whatever the seed)
+			u = append(u, "int:5", "b:"+hx(randBytes(r, []int{ns, 24, ns, 8, ns - 1, ns + 1, 1, 0, 7, 12, 13, 16}[ivLenSeq%12])))
 		case 3, 4, 5: // partial IV of length 0 .. ns+2
 			u = append(u, "int:6", "b:"+hx(randBytes(r, r.Intn(ns+3))))
 		case 6: // both
